@@ -86,11 +86,16 @@ func (f *FBaseProcessor) Process(iprot, oprot *FProtocol) error {
 
 	logger().Warnf("frugal: client invoked unknown function %s on request with correlation id %s",
 		name, fctx.CorrelationID())
-	if err := iprot.Skip(ctx, thrift.STRUCT); err != nil {
-		return err
+	// The caller's op id is known at this point, so the caller is answered even
+	// if the arguments of the unknown function cannot be skipped (as it is when
+	// the arguments of a known function cannot be read).
+	skipErr := iprot.Skip(ctx, thrift.STRUCT)
+	if skipErr == nil {
+		skipErr = iprot.ReadMessageEnd(ctx)
 	}
-	if err := iprot.ReadMessageEnd(ctx); err != nil {
-		return err
+	if skipErr != nil {
+		logger().Errorf("frugal: could not skip arguments of unknown function %s on request with correlation id %s: %s",
+			name, fctx.CorrelationID(), skipErr.Error())
 	}
 	ex := thrift.NewTApplicationException(APPLICATION_EXCEPTION_UNKNOWN_METHOD, "Unknown function "+name)
 	f.writeMu.Lock()
